@@ -86,7 +86,12 @@ func genBed(rng *rand.Rand, n int) feat.Feature {
 	nb := 1 + rng.Intn(5)
 	b := &bed.Bed12{Chrom: chrom, ChromStart: s, ChromEnd: e, FeatName: name, FeatScore: score, FeatStrand: st,
 		ThickStart: genInt(rng), ThickEnd: genInt(rng), BlockCount: nb}
-	if rng.Intn(3) != 0 {
+	switch rng.Intn(6) {
+	case 0: // zero colour
+	case 1: // opaque boundary colours: black, white, single channels
+		c := [][3]uint8{{0, 0, 0}, {255, 255, 255}, {255, 0, 0}, {0, 255, 0}, {0, 0, 255}, {0, 0, 1}, {1, 0, 0}}[rng.Intn(7)]
+		b.Rgb = color.RGBA{R: c[0], G: c[1], B: c[2], A: 0xff}
+	default:
 		b.Rgb = color.RGBA{R: uint8(rng.Intn(256)), G: uint8(rng.Intn(256)), B: uint8(rng.Intn(256)), A: 0xff}
 	}
 	for i := 0; i < nb; i++ {
